@@ -505,7 +505,54 @@ func (w *walker) transfer(st *wstate, in ssa.Instruction, prev *ssa.BasicBlock) 
 		} else {
 			st.vals[x] = avSymOf(x)
 		}
+	case *ssa.Slice:
+		// a slice of a tracked array cell (or of a slice of one) is modelled as a pointer to the same backing cell;
+		// its length is remembered when it is static (whole array, constant bounds)
+		b := w.eval(st, x.X)
+		lowZero := x.Low == nil
+		if !lowZero {
+			if lv, ok := w.eval(st, x.Low).Int(); ok && lv == 0 {
+				lowZero = true
+			}
+		}
+		if b.k == avPtr && lowZero {
+			st.vals[x] = &absVal{k: avPtr, key: b.key}
+			n := int64(-1)
+			if x.High != nil {
+				if hv, ok := w.eval(st, x.High).Int(); ok {
+					n = hv
+				}
+			} else if pt, ok := x.X.Type().Underlying().(*types.Pointer); ok {
+				if at, ok := pt.Elem().Underlying().(*types.Array); ok {
+					n = at.Len()
+				}
+			} else if l, ok := st.mem["LEN:"+b.key]; ok {
+				if lv, ok := l.Int(); ok {
+					n = lv
+				}
+			}
+			if n >= 0 {
+				st.mem["LEN:"+b.key] = avInt(n)
+			} else {
+				delete(st.mem, "LEN:"+b.key)
+			}
+		} else {
+			st.vals[x] = avSymOf(x)
+		}
 	case *ssa.Call:
+		if bi, ok := x.Call.Value.(*ssa.Builtin); ok && (bi.Name() == "len" || bi.Name() == "cap") && len(x.Call.Args) == 1 {
+			if a := w.eval(st, x.Call.Args[0]); a.k == avPtr {
+				if l, ok := st.mem["LEN:"+a.key]; ok && bi.Name() == "len" {
+					st.vals[x] = l
+					return
+				}
+			} else if a.k == avNil {
+				st.vals[x] = avInt(0)
+				return
+			}
+			st.vals[x] = avSymOf(x)
+			return
+		}
 		// an unmodelled call may write through every pointer it is given
 		for _, a := range x.Call.Args {
 			if pv := w.eval(st, a); pv.k == avPtr && strings.HasPrefix(pv.key, "A:") {
